@@ -51,7 +51,7 @@ Filter == /\ stage = "filter"
                THEN /\ fails' = fails \o (IF Raised THEN <<"C01.totality.raised_before_filtering">>
                                       ELSE <<"C02.filter_never_called">> \o (IF c.has_table /\ Len(c.rows) > 0   \* rows that no analysis of THIS call produced
                                                                               THEN <<"C01.table_returned_without_analysing_the_signal">> ELSE <<>>))
-                    /\ stage' = "finish"
+                    /\ stage' = IF ~Raised /\ c.has_table /\ Len(c.rows) > 0 THEN "orphan" ELSE "finish"
                ELSE /\ fails' = fails \o FilterClauses
                     /\ stage' = IF Len(c.filt.pos) = c.n + 2 * padlen THEN "extrema" ELSE "finish"
           /\ UNCHANGED <<tid, ext, zx, rows>>
@@ -106,6 +106,14 @@ Assemble ==
             /\ stage' = IF Len(c.rows) = Len(sr) THEN "shape" ELSE "finish"
   /\ UNCHANGED <<tid, ext, zx>>
 
+\* ---- named deviation: a table came back although the signal was never filtered in this call (a cache, an early return).  Whatever produced
+\* it, it must still be the analysis table of THIS signal: when it carries its cyclepoints, its shape columns, burst features and labels are
+\* judged against them like those of any other table.
+Orphan == /\ stage = "orphan"
+          /\ LET lg == Strict([k \in 1 .. Len(c.rows) |-> RowOf(c.rows[k])]) IN
+             IF c.has_samples /\ Indexable(lg) THEN rows' = lg /\ stage' = "shape" ELSE rows' = rows /\ stage' = "finish"
+          /\ UNCHANGED <<tid, ext, zx, fails>>
+
 \* ---- C04 ----
 IntFields == <<"period", "time_peak", "time_trough", "time_decay", "time_rise", "volt_peak", "volt_trough", "volt_decay", "volt_rise", "volt_amp2", "time_rdsym", "time_ptsym">>
 ShapeClauses ==
@@ -131,7 +139,14 @@ D  == Strict([k \in 1 .. Len(c.rows) |-> c.rows[k].volt_decay])
 P  == Strict([k \in 1 .. Len(c.rows) |-> c.rows[k].period])
 A2 == Strict([k \in 1 .. Len(c.rows) |-> c.rows[k].volt_amp2])
 EffM == EffMinCycles(c.call.mnc_bk, c.call.mnc_tk)
+\* total verdicts: a flank voltage is a difference of two samples and cannot exceed the range of the signal.  A table that says otherwise (an edited,
+\* stale or foreign table) is reported as such, and no arithmetic is done on its voltages (TLC's integers are 32-bit).
+SigRange == LET hi == FoldLeft(LAMBDA a, x : IF x > a THEN x ELSE a, c.sig[1], c.sig)
+                lo == FoldLeft(LAMBDA a, x : IF x < a THEN x ELSE a, c.sig[1], c.sig) IN hi - lo
+VoltInRange == c.n = 0 \/ \A k \in 1 .. Len(c.rows) : /\ Abs(c.rows[k].volt_rise) <= SigRange /\ Abs(c.rows[k].volt_decay) <= SigRange
+                                                       /\ Abs(c.rows[k].volt_amp2) <= 2 * SigRange
 BurstClauses ==
+  IF ~VoltInRange THEN <<"C04.flank_voltage_exceeds_the_range_of_the_signal">> ELSE
   IF c.method = "cycles"
   THEN Fail(\A k \in 1 .. Len(rows) : c.rows[k].amp_fraction = AmpFraction(A2, k), "C05.amp_fraction")
     \o Fail(\A k \in 1 .. Len(rows) : c.rows[k].amp_consistency = AmpConsistency(R, D, k, "both", peakC), "C05.amp_consistency")
@@ -178,6 +193,6 @@ Finish == /\ stage = "finish"
           /\ stage' = "done"
           /\ UNCHANGED <<tid, ext, zx, rows, fails>>
 
-Next == Call \/ Filter \/ FindExtrema \/ FindZerox \/ Assemble \/ ComputeShape \/ ComputeBurstFeat \/ DetectBursts \/ Finish
+Next == Call \/ Filter \/ Orphan \/ FindExtrema \/ FindZerox \/ Assemble \/ ComputeShape \/ ComputeBurstFeat \/ DetectBursts \/ Finish
 Spec == Init /\ [][Next]_vars
 =============================================================================
